@@ -1444,6 +1444,8 @@ class Interp:
             if isinstance(t.value, ast.Name) and t.value.id in fr.param_live:
                 fr.param_mutated.add(t.value.id)
             nb.tags.pop("raw_quotient_by", None)         # some entries were overwritten: no longer the raw quotient
+            if isinstance(t.slice, ast.Slice) and t.slice.lower is not None and t.slice.upper is None and t.slice.step is None:
+                nb.tags["tail_filled"] = M.norm_text(t)      # x[k:] = …: the tail (padded rows of a batch vector) is set explicitly
             nb.tags.pop("affine_grid", None)
             nb.term = mk_term("stored", base.term, f.term)
             if isinstance(t.value, ast.Name):
